@@ -5,16 +5,17 @@ import Rustemo.Model.AstEval
     ast eval <grammar> # <tree>          → ok <value> | novalue | panic <site hex> | stack | illtyped | notypes | bad-request
     ast skel <grammar>                   → generated type / fn items `T:..;S:..;E:..;F:..` (file order) | notypes
     ast arms <grammar>                   → calls of the shift / reduce arms `f(context,p0,None);…` | notypes
-    ast class <grammar>                  → types= ascii= distinct= declared= sized= arms= vecalt= veclabel= pk= wf= rightvec= variant=
+    ast class <grammar>                  → types= ascii= distinct= declared= sized= arms= vecalt= veclabel= pk= wf= rightvec= boollost= variant=
                                            (each `1` = that part of `Skel.wellFormed` holds; rightvec=1: a Vec rule
-                                           has its vector on the right)
+                                           has its vector on the right; boollost=1: a `?=` assignment on a symbol
+                                           without content, class of finding C10-N1)
     ast evalv|skelv|armsv|classv <0|1> … → the same for the named variant: `1` = `Fixes.repo` (/repo as it is, what the
                                            plain commands use), `0` = `Fixes.asWas` (before the repairs; diagnostics:
                                            tells which variant the implementation agrees with)
 
 * grammar: records separated by `|`:
     `cfg <loc 0|1> <rn 0|1> <start symbol>`; `t <name> <content> <reach>` (terminals without STOP);
-    `n <name> <reach> <vec>` (`grammar.nonterminals()`); `p <nt> <kind|-> <rn length> <sym>,<term>,<content>,<label|->…`
+    `n <name> <reach> <vec>` (`grammar.nonterminals()`); `p <nt> <kind|-> <rn length> <sym>,<term>,<content>,<label|->[,<?= 0|1>]…`
     (`grammar.productions()`, so that the record number is the `ProdKind` discriminant);
 * tree: `n<prod>(<tree>,…)` | `t<token kind>:<text hex>` (`=` for the empty text);
 * value: `'<hex>` string, `~` None, `?v` Some, `[v,…]` Vec, `Name{f=v,…}` struct, `Name(v,…)` / `Name`
@@ -30,6 +31,7 @@ def natS (s : String) : Nat := s.toNat?.getD 0
 def parseRSym (s : String) : Option RSym :=
   match s.splitOn "," with
   | [n, t, c, l] => some { name := n, isTerm := b01 t, content := b01 c, label := optS l }
+  | [n, t, c, l, b] => some { name := n, isTerm := b01 t, content := b01 c, label := optS l, isBool := b01 b }
   | _ => none
 
 def parseGrammar (s : String) : Option AGrammar :=
@@ -169,7 +171,7 @@ def classLine (fx : Fixes) (g : AGrammar) : String :=
   | none => s!"types=0 ascii={n01 ascii}"
   | some ts =>
     let s := skeleton fx g ts
-    s!"types=1 ascii={n01 ascii} distinct={n01 s.namesDistinct} declared={n01 s.refsDeclared} sized={n01 s.sized} arms={n01 s.armsTyped} vecalt={n01 s.vecAltsOk} veclabel={n01 s.vecLabelsOk} pk={n01 (nodup s.prodKinds)} wf={n01 s.wellFormed} rightvec={n01 (hasRightVec ts)} variant={if fx == Fixes.repo then "repo" else "asWas"}"
+    s!"types=1 ascii={n01 ascii} distinct={n01 s.namesDistinct} declared={n01 s.refsDeclared} sized={n01 s.sized} arms={n01 s.armsTyped} vecalt={n01 s.vecAltsOk} veclabel={n01 s.vecLabelsOk} pk={n01 (nodup s.prodKinds)} wf={n01 s.wellFormed} rightvec={n01 (hasRightVec ts)} boollost={n01 (hasLostBool g)} variant={if fx == Fixes.repo then "repo" else "asWas"}"
 
 def splitHash (s : String) : Option (String × String) :=
   match s.splitOn " # " with
